@@ -575,10 +575,19 @@ def r4_pseudo(ctx, F):
     # the walk starts at children[offset..]
     ix = [c for c in live_calls(b) if c.name == "index"]
     ok = len(ix) == 1 and [R(x, b, v) for x in v.call_args(ix[0])] == [children, "RangeFrom{start: offset}"]
+    anchor_bb = ix[0].bb if ix else None
+    if not ix:
+        # `children.iter().skip(offset)` instead of `children[offset..].iter()`
+        sk = [c for c in live_calls(b) if c.name == "skip" and (c.fn or "").endswith("Iterator::skip")]
+        if len(sk) == 1:
+            a_ = [R(x, b, v) for x in v.call_args(sk[0])]
+            ok = a_ in (["impl [T]::iter(%s)" % children, "offset"], ["impl [T]::iter(%s)" % children, "(offset as usize)"])
+            anchor_bb = sk[0].bb
     ctx.check(rule, "starts-at-offset", ok, "PseudoFs::do_readdir does not walk children[offset..]", loc=b.loc())
-    g = [(R(x, b, v), l) for (x, l, u) in v.guards(ix[0].bb)] if ix else []
+    g = [(R(x, b, v), l) for (x, l, u) in v.guards(anchor_bb)] if anchor_bb is not None else []
     ctx.check(rule, "past-end-empty", (vf.neg_fact("Ge(offset, Vec::len(%s))" % children), "otherwise") in g, "PseudoFs::do_readdir: offsets at or past the end must give an empty listing", loc=b.loc())
-    ctx.check(rule, "entry-fields", R(fields["ino"], b, v) == "some(Iter::next(loop(iter))).ino" and R(fields["name"], b, v) == "String::as_bytes(some(Iter::next(loop(iter))).name)"
+    ctx.check(rule, "entry-fields", R(fields["ino"], b, v) in ("some(Iter::next(loop(iter))).ino", "some(Skip::next(loop(iter))).ino", "some(Iterator::next(loop(iter))).ino")
+              and R(fields["name"], b, v) in ("String::as_bytes(some(Iter::next(loop(iter))).name)", "String::as_bytes(some(Skip::next(loop(iter))).name)", "String::as_bytes(some(Iterator::next(loop(iter))).name)")
               or ("Enumerate" in R(fields["ino"], b, v) and ".ino" in R(fields["ino"], b, v)),
               "PseudoFs::do_readdir: entry ino/name do not come from the child being walked (%s, %s)" % (R(fields["ino"], b, v)[:80], R(fields["name"], b, v)[:80]), loc=cm.loc())
     # stop on Ok(0): the counter steps / loop continues only on Ok(non-zero)
